@@ -382,6 +382,22 @@ def run_dataset(ds, acc, rng, n_extra=0):
         src = copy.deepcopy(src) if rng.random() < 0.5 else copy.copy(src)
         acc.count('C06:datasets_read_through_a_copied_source')
         handler = BacktestDataHandler(None, data_sources=(src,))
+    elif rng.random() < 0.3:
+        # the handler first served another feed (same tickers, other prices) and was then pointed at this one:
+        # handler.data_sources is a plain public attribute
+        class OtherFeed(object):
+            def get_bid(self, dt_, asset_):
+                return src2.get_bid(dt_, asset_) * 2.0 + 1.0
+
+            def get_ask(self, dt_, asset_):
+                return src2.get_ask(dt_, asset_) * 2.0 + 1.0
+        handler = BacktestDataHandler(None, data_sources=[OtherFeed()])
+        for asset in list(ds.ev)[:3]:
+            if ds.ev[asset]:
+                handler.get_asset_latest_bid_price(tstamp(ds.ev[asset][-1][0]), asset)
+                handler.get_asset_latest_ask_price(tstamp(ds.ev[asset][0][0]), asset)
+        handler.data_sources = [src]
+        acc.count('C06:handlers_repointed_after_first_use')
     else:
         handler = BacktestDataHandler(None, data_sources=[src])
 
@@ -593,8 +609,18 @@ def shard_c06(spec, acc):
                             for fld in ('open', 'close', 'adj'):
                                 if r[fld] is not None:
                                     r[fld] = round(r[fld] * 1.5 + 3.0, 4)
+                    from qstrader.data.daily_bar_csv import CSVDailyBarDataSource as _Src
+                    early = _Src(ds.dir, None, adjust_prices=ds.adjust)        # built now, asked only after the rewrite below
                     ds_again = Dataset(r2, spec2, reuse_dir=ds.dir)
                     try:
+                        for asset in list(ds.ev)[:2]:
+                            for t in instants(r2, ds.ev[asset])[:12]:
+                                try:
+                                    check_answer(ds, asset, t, early.get_bid(tstamp(t), asset), 'get_bid', acc)
+                                except Violation as v:
+                                    raise Violation(v.prop, 'source-built-before-the-files-changed/' + v.key, 'a data source built on the '
+                                                    'directory BEFORE its files were rewritten, asked afterwards: ' + v.msg, v.witness)
+                                acc.count('C06:answers_of_a_source_built_before_a_rewrite')
                         run_dataset(ds_again, acc, r2)
                     except Violation as v:
                         raise Violation(v.prop, 'directory-reused/' + v.key, 'after the CSV files of the same directory were '
